@@ -121,9 +121,19 @@ def classify (s : State) (drain : Bool) (op : Op) (mo : IObs) (io : IObs) : Opti
     | some _, .err _, .pending => some "C03/stranded"
     | some _, .got _ _, .err _ => if drain then some "C03/probe-failed" else none
     | _, _, _ => if drain && io.res == .pending && mo.res != .pending then some "C03/stranded" else none
-  | .issue _ _ _ =>
+  | .issue _ k _ =>
+    -- which connection did the implementation take out of the idle list, and was it allowed to?
+    let t := (tokenOf s k).2
+    let before := (tokenOf s k).1.idle t
+    let implIdle := (io.idle.lookup t).getD []
+    let modelIdle := (mo.idle.lookup t).getD []
+    let taken := before.filter fun e => !implIdle.contains e.1 && modelIdle != implIdle
+    let popped := (idlePop (tokenOf s k).1 before).1
+    if taken.any (fun e => expired (tokenOf s k).1 e.2 && some e.1 != popped && !implIdle.isEmpty) ||
+       (before.any (fun e => expired (tokenOf s k).1 e.2) && !implIdle.isEmpty && modelIdle.isEmpty)
+      then some "C05/expired-connection-kept-or-used"
     -- a shareable connection must stay available while it is checked out
-    if (io.idle.map (fun p => p.2.length)).sum < (mo.idle.map (fun p => p.2.length)).sum
+    else if (io.idle.map (fun p => p.2.length)).sum < (mo.idle.map (fun p => p.2.length)).sum
       then some "C04/shared-connection-unavailable" else none
   | _ =>
     -- idle/waiting bookkeeping differs
